@@ -26,7 +26,9 @@ def noDef : Tok → Bool := fun _ => false
 
 def L (n : Nat) : E := .lit ⟨10, n, false, 0⟩
 
-/-- The full-strength statement (for the record; refuted below). -/
+/-- The full-strength statement (for the record; refuted below).  It is deliberately the WEAKER form — a non-zero value may be
+answered by any non-zero value, only the branch taken has to agree — so its refutation is the stronger result;
+`ifeval_eq_spec_paren` proves exact equality of the value on its class. -/
 def IfEvalEqSpec : Prop :=
   ∀ (e : E) (v : Val), value noDef e = some v → evalIf noDef (print e) = .ok v.v ∨ (v.v ≠ 0 ∧ ∃ w, w ≠ 0 ∧ evalIf noDef (print e) = .ok w)
 
@@ -150,6 +152,51 @@ theorem included_lines_eq_spec_nested (t : Items) (st : IfStack) (k : List CLine
 example : (Items.cons (.sect false (.cons (.text 0) .nil) (.elif true (.cons (.text 1) .nil) (.els (.cons (.text 2) .nil))))
     (.cons (.text 3) .nil)).incl true = [1, 3] := by decide
 
+/-- **the directive loop is that machine** (audit M1): on ANY list of lines, from any state, the text lines the directive loop
+of `runFile` keeps (`keptLines`: its `top st.ifs == tru` test, the state threaded by `stepLine` itself — `#define/#undef` in
+skipped groups ignored, conditions consulted through `condOf` only) are exactly the lines `runC` keeps on the skeleton of the run
+(`skelLines`: per line `#if.. c` / `#elif c` with `c` the value `condOf` gives at that point, `#else`, `#endif`, text). -/
+theorem runLines_included_eq_runC (q : Quirks) (undefs : List Tok) (lines : List (List LTok)) (st : PState) (i : Nat)
+    (sk : List CLine) (k : List Nat) (h1 : skelLines q undefs st i lines = .ok sk) (h2 : keptLines q undefs st i lines = .ok k) :
+    runC st.ifs sk = some k :=
+  runLines_kept_eq_runC q undefs lines st i sk k h1 h2
+
+/-- hence: when the skeleton of a run is the flattening of a tree of if-sections, the directive loop keeps exactly the lines the
+group semantics of 6.10.1 selects -/
+theorem runLines_included_lines_eq_spec (q : Quirks) (undefs : List Tok) (lines : List (List LTok)) (st : PState) (i : Nat)
+    (t : Items) (k : List Nat) (hst : st.ifs = []) (h1 : skelLines q undefs st i lines = .ok t.flat)
+    (h2 : keptLines q undefs st i lines = .ok k) : k = t.incl true := by
+  have a := runLines_kept_eq_runC q undefs lines st i t.flat k h1 h2
+  rw [hst, included_lines_eq_spec] at a
+  injection a with a
+  exact a.symm
+
+/-! ### function-like macros (audit M4) -/
+
+/-- **function-like macro replacement = simultaneous parameter substitution**: for a table whose replacement lists contain no
+macro name and no `#` (`flatBodies`; macros may be object- or function-like), an invocation `t ( args )` of a non-variadic
+function-like macro with the right number of arguments, none of which contains a macro name, is replaced by the replacement list
+with every parameter substituted by its argument; the tokens after the invocation are processed independently. -/
+theorem expand_function_macro_eq_subst (q : Quirks) (ms : List Macro) (hf : flatBodies ms = true) (t lp : XTok) (m : Macro)
+    (ps : List Tok) (rest1 rest2 : List XTok) (args : List (List XTok))
+    (htn : isName t.s = true) (htb : t.blue = false) (hl : lookup ms t.s = some m) (hps : m.params = some ps)
+    (hnv : m.variadic = false) (hne : ps.length ≠ 0) (hva : ps.contains (tokS "__VA_ARGS__") = false) (hlp : lp.s = ['('])
+    (hpa : parseArgs rest1 = some (args, rest2)) (hlen : args.length = ps.length)
+    (hargs : ∀ a ∈ args, ∀ x ∈ a, lookup ms x.s = none) :
+    expand q ms [] (t :: lp :: rest1) = (expand q ms [] rest2).map (substParams ps args m.body ++ ·) :=
+  expand_fn_flat q ms hf t lp m ps rest1 rest2 args htn htb hl hps hnv hne hva hlp hpa hlen hargs
+
+/-- the hypotheses are met by `#define MAX(a,b) ( a > b ? a : b )` and the invocation `MAX ( x , 3 ) ;` -/
+example :
+    let mx : Macro := ⟨"MAX".toList, some ["a".toList, "b".toList], false,
+      ["(", "a", ">", "b", "?", "a", ":", "b", ")"].map String.toList⟩
+    let tk (s : String) : XTok := ⟨s.toList, false⟩
+    expand Quirks.code [mx] [] (tk "MAX" :: tk "(" :: [tk "x", tk ",", tk "3", tk ")", tk ";"]) =
+      (expand Quirks.code [mx] [] [tk ";"]).map
+        (substParams ["a".toList, "b".toList] [[tk "x"], [tk "3"]] mx.body ++ ·) :=
+  expand_function_macro_eq_subst Quirks.code _ (by decide) _ _ _ _ _ _ _ (by decide) (by decide) (by decide) (by decide) (by decide)
+    (by decide) (by decide) (by decide) (by decide) (by decide) (by decide)
+
 /-! ### -D / -U -/
 
 /-- **-D is applied**: every piece of `Settings::userDefines` (`-D`) whose name is not undefined by `-U` is a defined macro
@@ -160,7 +207,8 @@ theorem D_applied (ud cfg : List Char) (undefs : List Tok) (ms : List Macro) (d 
   initFrom_defines undefs (duiDefines ud cfg) [] ms d hok (by simp [duiDefines, hd]) hnu h
 
 /-- **-U is applied**: a name given with `-U` is defined neither when the file starts nor after any sequence of lines
-(`#define` of such a name is ignored). -/
+(`#define` of such a name is ignored).  The statement is about runs that do not stop with an error (`.ok`): when a line fails
+(`#error`, an `#include` — outside the model —, a malformed `#define`) simplecpp clears its output and the theorem says nothing. -/
 theorem U_applied (q : Quirks) (defines : List (List Char)) (undefs : List Tok) (x : Tok) (hx : undefs.contains x = true)
     (hok : entriesOK defines = true) (ms : List Macro) (h0 : initMacros defines undefs = .ok ms)
     (lines : List (List LTok)) (st' : PState) (h : runLines q undefs ⟨ms, [], []⟩ lines = .ok st') :
